@@ -23,7 +23,7 @@ def describe(tier):
                 % DEPTH[tier],
         'bounds': 'alphabet 5, BFS to fixpoint (cap %d states), all 5^k sequences k<=%d' % (STATE_CAP, DEPTH[tier]),
         'assumptions': ['hidden state can only live in the EDB object, the token objects or the scheme/config object (canon covers these three)'],
-        'must_be_nonzero': ['bfs-fixpoint', 'sequences', 'inputs-checked', 'default-config-checked', 'second-index'],
+        'must_be_nonzero': ['bfs-fixpoint', 'sequences', 'inputs-checked', 'inputs-checked-bytearray-ids', 'default-config-checked', 'second-index'],
     }
 
 
@@ -217,10 +217,17 @@ def run_inputs(r, seed, p, tier):
     profs = [q for q in domains.profiles(n) if sse.valid_profile(name, cfg, q)]
     lens = [v for v in domains.around(sse.special_lengths(name, cfg, tier)) if v <= 40]
     profs += [q for q in domains.boundary_profiles(lens, extra=False) if sse.valid_profile(name, cfg, q) and q not in profs]
-    for prof in profs:
+    # identifiers are byte strings; the library accepts any bytes-like object, and a mutable one (bytearray) is the one a callee
+    # could change in place
+    variants = [(q, 'bytes') for q in profs] + [(q, 'bytearray') for q in profs if sum(q) <= (4 if tier == 'quick' else 6)]
+    for prof, idtype in variants:
         case = {'scheme': name, 'label': label, 'cfg': cfg, 'profile': prof, 'inputs': True}
+        if idtype != 'bytes':
+            case['id_type'] = idtype
         core.note_case(case)
         db, cfg1, g = sse.build_db(seed, name, label, cfg, prof, 6, 'shared' if sum(prof) % 2 else 'disjoint')
+        if idtype == 'bytearray':
+            db = {w: [bytearray(i) for i in v] for w, v in db.items()}
         det.seed_case(seed, PROPERTY, 'inputs', name, label, tuple(prof))
         db0, cfg0 = copy.deepcopy(db), copy.deepcopy(cfg1)
         order0 = [(w, list(v)) for w, v in db.items()]
@@ -233,9 +240,11 @@ def run_inputs(r, seed, p, tier):
             edb = scheme.EDBSetup(key, db)
             r['transitions'] += 2
         except Exception:
-            r.count("setup-raises (C01's subject, skipped here)")
+            r.count("setup-raises (C01's subject, skipped here)" if idtype == 'bytes' else 'bytearray-identifiers-refused')
             continue
         r.count('inputs-checked')
+        if idtype != 'bytes':
+            r.count('inputs-checked-bytearray-ids')
         r['nontrivial'] += 1
 
         def chk(stage):
